@@ -17,7 +17,7 @@
 (* State invariants that must hold at every step are folded into `trap`,   *)
 (* which stops the behaviour.                                              *)
 (***************************************************************************)
-EXTENDS Integers, Sequences, FiniteSets, TLC, Json, IOUtils
+EXTENDS Integers, Sequences, FiniteSets, TLC, Json, IOUtils, ExoProgram
 
 Batch == JsonDeserialize(IOEnv.EXO_BATCH)
 Units == Batch.units
@@ -595,7 +595,11 @@ EqVerdict ==
            bd == BufDiffs(ob)
            cd == CfgDiffs(ob)
        IN IF bd # {} THEN LET w == CHOOSE x \in bd : TRUE
-                          IN "differ:arg" \o ToString(Unit.outmap[w[1]].a) \o "[" \o ToString(w[2] - 1) \o "]"
+                              om == Unit.outmap[w[1]]
+                              qb == IF om.perm = << >> THEN w[2] ELSE om.perm[w[2]]
+                              un == qb <= Len(ob.bufs[om.b]) /\ ob.bufs[om.b][qb] = Poison
+                          IN (IF un THEN "uninit:arg" ELSE "differ:arg")
+                             \o ToString(om.a) \o "[" \o ToString(w[2] - 1) \o "]"
           ELSE IF cd # {} THEN "cfg-differ:" \o ToString(CHOOSE c \in cd : TRUE)
           ELSE "ok"
 \* ExoCTrace: the single logged event of the compiled program must match
@@ -611,7 +615,12 @@ SafeVerdict ==
 Verdict == IF Unit.B # 0 THEN EqVerdict
            ELSE IF "event" \in DOMAIN Input THEN CVerdict
            ELSE SafeVerdict
-Census == Done => PrintT(ToJson([u |-> uid, i |-> iid, v |-> Verdict]))
+\* static well-scopedness of every procedure of the unit, reported once per unit
+\* (procedures 1..Unit.nA are the reference procedure and its callees, the rest belong to B)
+ScopeOK(lo, hi) == \A q \in lo..hi : WellScoped(Procs[q])
+Census == Done => PrintT(ToJson([u |-> uid, i |-> iid, v |-> Verdict,
+                                 wsa |-> IF iid = 1 THEN ScopeOK(1, Unit.nA) ELSE TRUE,
+                                 wsb |-> IF iid = 1 THEN ScopeOK(Unit.nA + 1, Len(Procs)) ELSE TRUE]))
 
 \* The same properties as real invariants (used for single-unit replays, where
 \* TLC's counterexample behaviour is the witness).
